@@ -37,7 +37,8 @@ def generate(rnd, phrases, n):
         elif c < 0.8:
             # several results and errors in one query
             parts = [rnd.choice(["1 / 0", "2 m + 3 s", str(rnd.randint(1, 50)), "%d m" % rnd.randint(1, 5), "10 / 4", rnd.choice(phrases), "1 decade", "2 decades",
-                                 "1 m/decade", "10 / 2s", "1 / 1 s", "4 m/decade", "%d m^%d" % (rnd.randint(1, 3), rnd.choice([2, 10, 12, 13]))]) for _ in range(rnd.randint(2, 4))]
+                                 "1 m/decade", "10 / 2s", "1 / 1 s", "4 m/decade", "%d m^%d" % (rnd.randint(1, 3), rnd.choice([2, 10, 12, 13])), "1 / 0", "nosuchfact here", "%d m^0" % rnd.randint(1, 3), str(rnd.randint(10 ** 8, 10 ** 12)),
+                                 "0.%s%d" % ("0" * rnd.randint(7, 11), rnd.randint(1, 999))]) for _ in range(rnd.randint(2, 4))]
             out.append(" ".join("(%s)" % x for x in parts))      # several root-level expressions = several results
         elif c < 0.9:
             u = rnd.choice(["s", "decade", "m/s", "m/decade", "1/s", "kg", "ft", "century", "J/century", "hours", "inches", "m^12", "m^10", "s^-13"])
@@ -93,11 +94,11 @@ def run(chk):
     phrases = factlib.phrases(facts)
     rnd = random.Random(chk.seed + 19)
     queries = generate(rnd, phrases, p["queries"]) + ["10 / 2s", "4 m/decade", "3 J/century", "2 m^12", "1 m^10", "1 /s^13", "2 * pi", "pi", "speed of light", "1 decade", "2 decade",
-                                                     "1 decades/s", "7 / 2", "1 / 3 m"]
+                                                     "1 decades/s", "7 / 2", "1 / 3 m", "2 m^0", "2 decade m^0", "2 decade^0 m", "(1/0) (2/0) (3)", "(foo) (3m) (foo)", "123456789", "1c to m/s", "0.000000001234", "12345678901 m"]
     w = vlib.workdir("c19-run")
     inp, out = os.path.join(w, "queries.ndjson"), os.path.join(w, "rec.ndjson")
     vlib.write_ndjson(inp, queries)
-    vlib.conform(["c19-record", "--in", inp, "--out", out, "--any", vlib.conform_bin("release", "any"), "--ids", lang.IDS], timeout=7200)
+    vlib.conform(["c19-record", "--in", inp, "--out", out, "--any", vlib.conform_bin("release", "any"), "--ids", lang.IDS, "--modes4"], timeout=7200)
     np_, sp_, measured = unit_names(chk)
     chk.cov["unit_spellings_measured"] = measured
     res = lang.validate(chk, out, "c19-val", module="Trace_Cli", label="runs of the binary", chunk=400, env={"NAMES": np_, "SYMS": sp_})
@@ -114,7 +115,7 @@ def run(chk):
         if len(r["results"]) >= 2 or (r["results"] and r["results"][0]["k"] == "val" and r["results"][0]["unit_plural"]):
             chk.nontrivial([r["mode"], r["text"]])
     chk.cov["exhaustive"] = False
-    chk.cov["rule"] = ("one evaluation = one run of the real binary (modes default / --exact / --describe in rotation) compared with the library's in-process results; "
+    chk.cov["rule"] = ("one evaluation = one run of the real binary (modes default / --exact / --describe / the flag behind the query, in rotation) compared with the library's in-process results; "
                        "queries: numeric expressions, quantities over the whole vocabulary, fact phrases, comma-separated lists with values and errors, "
                        "pluralisable and denominator-only units, malformed input; non-trivial = >= 2 results or a value with a unit, distinct by (mode, text)")
     for r in recs[:3]:
@@ -127,9 +128,9 @@ def replay(chk, case):
     vlib.build_harness("release")
     w = vlib.workdir("c19-replay")
     inp, out = os.path.join(w, "queries.ndjson"), os.path.join(w, "rec.ndjson")
-    i = {"default": 0, "exact": 1, "describe": 2}[case["mode"]]
+    i = {"default": 0, "exact": 1, "describe": 2, "describe_after": 3}[case["mode"]]
     vlib.write_ndjson(inp, ["1"] * i + [case["text"]])
-    vlib.conform(["c19-record", "--in", inp, "--out", out, "--any", vlib.conform_bin("release", "any"), "--ids", lang.IDS])
+    vlib.conform(["c19-record", "--in", inp, "--out", out, "--any", vlib.conform_bin("release", "any"), "--ids", lang.IDS, "--modes4"])
     np_, sp_, _ = unit_names(chk, "c19-replay-names")
     res = lang.validate(chk, out, "c19-replay-val", module="Trace_Cli", label="replay", env={"NAMES": np_, "SYMS": sp_})
     for m in res.mismatches:
